@@ -62,6 +62,11 @@ CLAIMED = {
             "and boundary targets up to 2^64-1. Oracle: no panic (recovered and attributed), every call returns (a watchdog re-executes any call without progress for 20 s twice before reporting; "
             "seven orders of magnitude above a normal call), and a Stump.Update that returns an error leaves NumLeaves and every root unchanged. Polynomial time is observed only as termination on every "
             "bounded input.", "6 C04"),
+    "C09": ("partial", "explicit-state BFS over the life of a non-full MapPollard (blocks, verify-remember, ingest, prune, undo, from-roots) vs reference model",
+            "For each TotalRows setting one non-full MapPollard is driven through every interleaving, up to Nmax leaves ever added, of blocks (every deletion subset x addition count x Remember subset), "
+            "Verify(remember=true) and Ingest of every live leaf set (also with a trailing unused proof hash), Prune of every cached subset, Undo (budget 1) and replacement by NewMapPollardFromRoots "
+            "(budget 1). On every reached state every stored position must hold the reference hash, the cached-leaf table must be exactly the remembered set at true positions, the stored positions must "
+            "lie between (roots + cached leaves + path siblings) and (that + path ancestors), and every subset of the cached leaves must be proven canonically.", "6 C09"),
 }
 
 NOT_YET = {
@@ -104,6 +109,8 @@ def main():
              "kind_free_text": "explicit-state breadth-first search over light-client histories (Stump.Update, Proof.Update, Proof.Undo on the real code) against the reference model and a full prover"},
             {"name": "inputs", "path": "/verif/vmc/mc/inputs.go", "serves_properties": ["C03", "C04"],
              "kind_free_text": "exhaustive enumeration of untrusted input triples over closed alphabets and of complete edit neighbourhoods of honest proofs, executed on the real verifiers; oracle from the reference forest"},
+            {"name": "partial", "path": "/verif/vmc/mc/partial.go", "serves_properties": ["C09"],
+             "kind_free_text": "explicit-state breadth-first search over operation histories of one partial MapPollard; canonical concrete-state dump as seen-set key; reference model oracle on every state"},
             {"name": "geom", "path": "/verif/vmc/mc/geom.go", "serves_properties": ["C16"],
              "kind_free_text": "exhaustive enumeration of the argument space of the pure position functions (bounded heights exhaustive, boundary grid to 63 rows) against the reference geometry"},
         ],
